@@ -394,6 +394,7 @@ static int deepest_new = 0;
 static void body(void) {
   int kind = vx_choose("kind", 7), mode = vx_choose("mode", 2);
   int D = mode == 0 ? (vx_thorough() ? 4 : 3) : (vx_thorough() ? 14 : 10);
+  if (mode == 0 && (kind == 2 || kind == 3) && vx_thorough()) D = 3;      /* uivector, ivector: depth 4 only for dvector (same skeleton) */
   if (mode == 0 && (kind == 0 || kind == 5) && !vx_thorough()) D = 2;   /* 136 / 60 operations per step */
   if (mode == 0 && (kind == 0 || kind == 5) && vx_thorough()) D = 3;
   TAG = 0; OPNAME[0] = 0;
